@@ -395,6 +395,7 @@ fn deserialize_iterator<'a, 'b, T: BinaryDeserializer + 'a>(
             context,
             element: PhantomData,
         },
+        Ok(length) if length < 0 => DeserializerIterator::InvalidLength(length),
         Ok(length) => DeserializerIterator::KnownSize {
             context,
             remaining: length as usize,
@@ -414,6 +415,7 @@ enum DeserializerIterator<'a, 'b, T: BinaryDeserializer + 'a> {
         element: PhantomData<T>,
     },
     InputEndedUnexpectedly,
+    InvalidLength(i32),
 }
 
 impl<'a, 'b, T: BinaryDeserializer + 'a> Iterator for DeserializerIterator<'a, 'b, T> {
@@ -423,6 +425,11 @@ impl<'a, 'b, T: BinaryDeserializer + 'a> Iterator for DeserializerIterator<'a, '
         match self {
             DeserializerIterator::InputEndedUnexpectedly => {
                 Some(Err(Error::InputEndedUnexpectedly))
+            }
+            DeserializerIterator::InvalidLength(length) => {
+                Some(Err(Error::DeserializationFailure(format!(
+                    "Failed to deserialize sequence: invalid length {length}"
+                ))))
             }
             DeserializerIterator::KnownSize {
                 ref mut context,
